@@ -27,6 +27,7 @@ type ReplayResult struct {
 	Decls     []string       `json:"harness_decls,omitempty"`
 	Imports   map[string]string `json:"harness_imports,omitempty"`
 	Model     map[string]string `json:"model,omitempty"`
+	Search    string            `json:"search,omitempty"`
 }
 
 // Observed value description produced by the harness.
@@ -435,7 +436,7 @@ func (me *modelEnv) elemKey(s SliceV, i int) string {
 // Replay runs the real function on the counterexample of a failed obligation and decides whether the
 // observed behaviour contradicts the function's contract.
 func (p *Program) Replay(opts CheckOpts, name string, res *OblResult, frs []*FuncResult, work string) *ReplayResult {
-	if res == nil || res.Ans.Model == nil {
+	if res == nil {
 		return nil
 	}
 	var fr *FuncResult
@@ -452,6 +453,12 @@ func (p *Program) Replay(opts CheckOpts, name string, res *OblResult, frs []*Fun
 		if t == "C32" {
 			wantGauge = true
 		}
+	}
+	if res.Ans.Model == nil {
+		if res.O.Expect != "unsat" || res.O.Probe || strings.HasPrefix(res.O.Short, "lemma.") {
+			return nil
+		}
+		return p.boundarySearch(opts, res, fr, work, wantGauge)
 	}
 	return p.replayCandidates(fr, res.Ans.Model, work, opts.Overlay, wantGauge)
 }
